@@ -44,6 +44,7 @@ PROGRAMS = [
   ('psql_udfs', '@Engine("psql");\nA(1); A(2);\nFa(x) --> x + 1;\nGb(x) --> x * 2;\nHc(x) --> Fa(x) - Gb(x);\nT(Fa(x), Gb(x), Hc(x)) :- A(x);\n', ['T'], None),
   ('flags', '@Engine("sqlite");\n@DefineFlag("who", "world");\n@DefineFlag("greeting", "hello ${who}");\nT(FlagValue("greeting"), "${who}!");\n', ['T'], None),
   ('incantation', '@Engine("sqlite");\n# ' + INCANT + '\nF(x) = x + 1;\nT(y) :- y == 2 * F(1);\n', ['T'], None),
+  ('incantation_broken', '@Engine("sqlite");\n# ' + INCANT + '\nF(x) = x + 1;\nT(y) :- y == 2 * F(1;\n', ['T'], None),       # asks for the experimental syntax and does not parse
   ('fun_sensitive', '@Engine("sqlite");\nF(x) = x + 1;\nT(y) :- y == 2*F(1);\nU(x ---y) :- x == 1, y == 2 | x == 2, y == 1;\n', ['T', 'U'], None),
   # the same predicate names in different roles (injectible / limited / @NoInject / distinct / function with a body): whatever one compilation
   # remembers per predicate NAME must not reach the next program
